@@ -15,7 +15,7 @@ DEV = "await-weight-not-scheduled"
 INVS = {
     "C08": {"AtTrigger", "Ordered", "Barrier", "OnceOrCancelled"},
     "C09": {"CancelBefore", "KeepAfter", "NonCriticalSilent", "OnlyCriticalFailuresAffect", "CriticalFailureReported"},
-    "C10": {"SetBetween", "Stable", "Gone", "StampOrder", "NoLeak", "EndExactlyOnce"},
+    "C10": {"SetBetween", "Stable", "Gone", "StampOrder", "NoLeak", "EndExactlyOnce", "SetOnce"},
 }
 TEV = {"START_ACTIVITY": "START", "STOP_ACTIVITY": "STOP", "RESET": "RESET", "CONFIGURE": "CONFIGURE"}
 TX = {v: k for k, v in TEV.items()}
@@ -37,7 +37,7 @@ TASK_ENDS = {"ok": {"hook_exit": 0, "hook_voluntary": True}, "exit1": {"hook_exi
              "exit3killed": {"hook_exit": 3, "hook_voluntary": False}, "silent": {"hook_silent": True}}
 
 
-def scenario(sid, case, gate=None, timeout="5s", gap_ms=0, pad=False, taskhook=None):
+def scenario(sid, case, gate=None, timeout="5s", gap_ms=0, pad=False, taskhook=None, nonumber=False):
     """pad: weights spelled with leading zeros (+005); taskhook = (end_if_fails, end_if_ok): hook h1 is a hook TASK, not a call."""
     cls = "ehs%dt1" % sid
     roles = cs.role_task("t1", cls)
@@ -59,20 +59,28 @@ def scenario(sid, case, gate=None, timeout="5s", gap_ms=0, pad=False, taskhook=N
         hooks[h["id"]] = b
     wf = "ehwf%d" % sid
     steps = [{"do": "create", "env": "e1", "wf": wf}]
+    if nonumber:
+        # the shared run counter cannot be advanced: the START must fail before a run exists (no number, no stamps, no end-of-run record)
+        steps.append({"do": "kvfault", "kind": "put500"})
     for i, ev in enumerate(case["plan"], start=1):
         if i in case["bodyfails"]:
             steps.append({"do": "script", "rule": {"class": cls, "event": TEV[ev], "outcome": "err_src", "times": 1}})
         if gate:
             steps += [{"do": "control", "env": "e1", "op": ev, "caller": "A%d" % i},
                       {"do": "waitgate", "point": "probe:G", "timeout_ms": 250}, {"do": "settle", "ms": 60},
-                      {"do": "release", "point": "probe:G"}, {"do": "await", "caller": "A%d" % i}]
+                      {"do": "ungate", "point": "probe:G"}, {"do": "await", "caller": "A%d" % i}]
         else:
             steps.append({"do": "control", "env": "e1", "op": ev})
         if gap_ms:
             steps.append({"do": "sleep", "ms": gap_ms})   # lets a declared call timeout elapse before the next request
+    if nonumber:
+        steps.append({"do": "kvfault", "kind": "off"})
     steps += [{"do": "destroy", "env": "e1", "force": True}, {"do": "settle", "ms": 20}]
+    pred = case["pred"]
+    if nonumber:
+        pred = [{"ev": ev, "ok": False, "st": "ERROR"} for ev in case["plan"]]
     model = {"hooks": sorted(case["hooks"], key=lambda x: x["id"]), "plan": case["plan"], "bodyfails": case["bodyfails"],
-             "pred": case["pred"], "gate": gate or "", "pad": pad, "taskhook": list(taskhook) if taskhook else []}
+             "pred": pred, "gate": gate or "", "pad": pad, "taskhook": list(taskhook) if taskhook else [], "nonumber": nonumber}
     files = {"tasks/%s.yaml" % cls: cs.task_class(cls), "workflows/%s.yaml" % wf: cs.workflow(wf, roles)}
     files.update(files_extra)
     fam = "EnvHooks" + ("-gated" if gate else "") + ("-slow" if gap_ms else "") + ("-padded" if pad else "") + ("-taskhook" if taskhook else "")
@@ -129,7 +137,7 @@ def project(lines):
             elif ev == "HookEnd" and ln.get("env") == "e1":
                 out.append({"ev": "HE", "scn": scn, "hook": ln["hook"], "ok": ln["ok"]})
             elif ev == "MMessage" and ln.get("env") == "e1":
-                out.append({"ev": "Cmd", "scn": scn, "tx": TX.get(ln["event"], ln["event"])})
+                out.append({"ev": "Cmd", "scn": scn, "tx": TX.get(ln["event"], ln["event"]), "held": bool(ln.get("held_soeor"))})
             elif ev == "RunEv" and ln.get("env") == "e1":
                 out.append({"ev": "Run", "scn": scn, "rn": ln["rn"], "tx": ln["tx"], "status": ln["status"]})
             elif ev == "ApiReply" and ln.get("call") == "control":
@@ -200,7 +208,8 @@ def run_family(ctx, pid):
                 and c["plan"] == ["START_ACTIVITY", "STOP_ACTIVITY"] and key not in seen_ok):
             seen_ok.add(key)
             single_ok.append(c)
-    plain = rest[:(70 if quick else 600)] + single + failstop[:(60 if quick else 600)] + meet
+    second_run = [c for c in cases if len(c["plan"]) == 3]
+    plain = rest[:(70 if quick else 600)] + single + failstop[:(60 if quick else 600)] + second_run + meet
     # calls whose await point is reached long after their declared timeout
     slow = [c for c in rest if any(h["id"] == "h1" and h["tm"].endswith("START_ACTIVITY") and h["am"] == "after_STOP_ACTIVITY" for h in c["hooks"])
             and c["plan"] == ["START_ACTIVITY", "STOP_ACTIVITY"] and not c["bodyfails"]][:(4 if quick else 16)]
@@ -243,7 +252,12 @@ def run_family(ctx, pid):
     for s in scenarios:
         ctx.count_case(json.dumps(s["model"], sort_keys=True), nontrivial=True)
     ctx.exhaustive = False
-    ctx.log("cases from TLC: %d; scenarios: %d plain + %d gated + %d slow + %d padded + %d task-hook" % (len(cases), len(plain), len(gated), len(slow), len(padded), ntask))
+    nn = 0
+    for c in single_ok[:(6 if quick else 20)] + second_run[:2]:
+        sid += 1
+        nn += 1
+        scenarios.append(scenario(sid, c, nonumber=True))
+    ctx.log("cases from TLC: %d; scenarios: %d plain + %d gated + %d slow + %d padded + %d task-hook + %d without a run number" % (len(cases), len(plain), len(gated), len(slow), len(padded), ntask, nn))
     # 3. run on the real core, 4. validate
     judge(ctx, pid, scenarios, cs.run_scenarios(ctx, scenarios))
 
@@ -291,7 +305,10 @@ def judge(ctx, pid, scenarios, lines):
                "same_moment_later_weight": bool(h1) and h1["tm"] == h1["am"] and h1["aw"] > h1["tw"],
                "h1": "%s->%s" % (expr(h1.get("tm", ""), h1.get("tw", 0)), expr(h1.get("am", ""), h1.get("aw", 0))), "detail": str(v[4])[:160],
                # the state was written to ERROR without a transition (GO_ERROR itself was refused): recorded fact api.force.done
-               "forced_error": scn in forced}
+               "forced_error": scn in forced,
+               # which clause of the invariant failed (known findings match on it, so that another failure in the same scenario shows)
+               "cls": ("end-without-run" if "without a run" in str(v[4]) else
+                       "end-count" if inv == "EndExactlyOnce" and isinstance(v[4], list) and len(v[4]) == 3 and all(isinstance(x, int) for x in v[4]) else "")}
         if inv in INVS[pid]:
             ctx.add_violation(sig, replay_obj={"scenario": by_id.get(scn), "trace": [l for l in lines if l.get("scn") == scn]})
         else:
